@@ -369,7 +369,8 @@ def regrid_spec(dset, freq=None, dir=None, maintain_m0=True):
 
     if maintain_m0:
         scale = dset.spec.hs() ** 2 / dsout.spec.hs() ** 2
-        dsout = dsout * scale
+        # Spectra with no energy cannot be rescaled, leave them as they are
+        dsout = dsout * scale.where(np.isfinite(scale), 1.0)
 
     if isinstance(dsout, xr.DataArray):
         dsout.name = "efth"
